@@ -122,6 +122,13 @@ func Value(r *kit.Rng, s *schema.Node, o GenOpts) string {
 			buf[i] = byte(r.Intn(256))
 		}
 		return base64.StdEncoding.EncodeToString(buf)
+	case "anydata":
+		if r.Chance(1, 3) {
+			// a selection over a small tree of its own, rendered by a nested writer:
+			// "@sel:<entries>:<string length>"
+			return fmt.Sprintf("@sel:%d:%d", r.Intn(4), r.Pick3(3, 300, 5000))
+		}
+		return AnyJSON[r.Intn(len(AnyJSON))]
 	case "empty":
 		return ""
 	case "identityref":
@@ -169,6 +176,10 @@ func keyValue(r *kit.Rng, s *schema.Node, o GenOpts) string {
 	}
 	return "k" + fmt.Sprint(r.Intn(n))
 }
+
+// AnyJSON are values of anydata nodes.
+var AnyJSON = []string{`{"a":1}`, `[1,"x",{"b":null}]`, `"str \" esc \\ \u2028"`, `12.5`, `true`, `null`, `{}`, `[]`,
+	`{"nested":{"deep":[[],{}],"n":-0.5e3},"s":"\u00e9\ud83d\ude00","t":[true,false,null]}`, `[[[[1]]]]`, `{"k with space":"v","":0}`}
 
 var confusableInts = []string{"1", "21", "12", "2", "121", "11"}
 var confusableStrs = []string{"k1", "k12", "k", "1k", "k1k", "12"}
